@@ -43,7 +43,7 @@ Record Inv2 (s : st) : Prop := {
   j_busy : walk s <> [] \/ acc s <> [] -> slot s = SReady;
   j_eres : forall w, In (EResume w) (elog s) <-> In w (acc s ++ rel s);
   j_efree : forall w, In (EFree w) (elog s) -> exists k o f, W s w = Some (k, WDone o, f);
-  j_frame : forall b, In (EFrame b) (elog s) -> b = true;
+  j_frame : forall b, In (EFrame b) (elog s) -> b = true /\ slot s = SReady;
   j_log : wf_log (elog s);
 }.
 
@@ -298,7 +298,7 @@ Proof.
   - intros [Q|Q]; congruence.
   - exact J11.
   - intros w Hw. destruct (J12 w Hw) as (k1 & o & f1 & A). destruct (J8 _ _ _ _ A) as (B & _). congruence.
-  - exact J13.
+  - intros b Q. destruct (J13 b Q) as (_ & B). congruence.
   - exact J14.
 Qed.
 
@@ -368,6 +368,7 @@ Proof.
   constructor; unfold rel, W, T in *; cbn [chain slot walk acc thrs sublog wlog elog payload app] in *; rewrite ?AP in *; auto.
   - intros w k o f A. destruct (J8 _ _ _ _ A) as (B & C & D). auto.
   - intros w o A. destruct (J9 _ _ A) as (B & C). auto.
+  - intros b A. destruct (J13 _ A) as (B & C). auto.
 Qed.
 
 Lemma wf_walk l w : wf_log l -> ~ In (EResume w) l -> ~ In (EFree w) l -> wf_log (l ++ [ENext w; EClear w; EResume w]).
@@ -685,7 +686,7 @@ Proof.
       split; [exact Q1|]. inn. intuition discriminate.
     - intros w. rewrite <- J11. rewrite in_app_iff. cbn [In]. intuition discriminate.
     - intros w Q. apply J12. inn. intuition discriminate.
-    - intros b Q. inn. destruct Q as [Q|[Q|[]]]; [auto|]. inversion Q. unfold slot_ready. rewrite SR. reflexivity.
+    - intros b Q. inn. destruct Q as [Q|[Q|[]]]; [auto|]. inversion Q. unfold slot_ready. rewrite SR. auto.
     - apply wf_snoc; [exact J14|exact Logic.I]. }
   destruct J0 as (J0 & A0 & TR0).
   set (l := if is_async k then rot_last (acc s) else acc s).
@@ -765,4 +766,222 @@ Theorem inv2_reachable ops s : reachable ops s -> Inv2 s.
 Proof.
   induction 1 as [|s i R IH E]; [apply inv2_init|].
   apply inv2_step; [eapply inv1_reachable; eassumption|exact IH|exact E].
+Qed.
+
+(* ================= C02 theorems ================= *)
+Arguments count_occ : simpl never.
+
+Lemma nodup_count (l : list nat) x : NoDup l -> (count_occ Nat.eq_dec l x <= 1)%nat.
+Proof. intros N. apply (proj1 (NoDup_count_occ Nat.eq_dec l) N). Qed.
+
+(* at most once: a waiter id occurs at most once in slot ∪ walk list ∪ suspend point ∪ released *)
+Theorem at_most_once ops s :
+  reachable ops s ->
+  NoDup (chain s ++ walk s ++ acc s ++ rel s) /\
+  forall w, (count_occ Nat.eq_dec (rel s) w <= 1)%nat /\
+            (In w (rel s) -> ~ In w (chain s ++ walk s ++ acc s)).
+Proof.
+  intros R. pose proof (inv2_reachable _ _ R) as J. split; [apply J|].
+  intros w. split.
+  - apply nodup_count. pose proof (j_nodup s J) as N. rewrite !app_assoc in N. apply nodup_app_r in N. exact N.
+  - apply (nodup4 _ _ _ _ w (j_nodup s J)).
+Qed.
+
+(* only subscribed waiters are ever released or held: nothing is invented *)
+Theorem released_were_subscribed ops s w :
+  reachable ops s -> (In w (sublog s) <-> In w (chain s ++ walk s ++ acc s ++ rel s)).
+Proof. intros R. apply (j_sub s (inv2_reachable _ _ R)). Qed.
+
+(* not early: a release happens only when the slot is Ready (after the exchange, which is after the payload was
+   set), and the payload visible at that instant is the winner's, i.e. the final one *)
+Theorem not_early ops s w o :
+  reachable ops s -> In (w, o) (wlog s) ->
+  slot s = SReady /\ o = payload s /\
+  exists i k pc, winner s = Some i /\ T s i = Some (TR k pc) /\ o = payload_of k ONone.
+Proof.
+  intros R H. pose proof (inv2_reachable _ _ R) as J. destruct (j_wlog s J _ _ H) as (SR & E).
+  refine (conj SR (conj E _)). destruct (result_is_winners ops s R SR) as (i & k & pc & A & B & C).
+  exists i, k, pc. rewrite E. auto.
+Qed.
+
+(* the walker holds detached nodes / collected handles only after the exchange *)
+Theorem walk_only_when_ready ops s :
+  reachable ops s -> walk s <> [] \/ acc s <> [] -> slot s = SReady.
+Proof. intros R. apply (j_busy s (inv2_reachable _ _ R)). Qed.
+
+(* whoever went on — released, refused by the CAS, or found the future ready — observed Ready and read the final payload;
+   a waiter that went on without having subscribed was never released *)
+Theorem done_sees_result ops s w k o f :
+  reachable ops s -> T s w = Some (TW k (WDone o) f) ->
+  slot s = SReady /\ o = payload s /\
+  (exists i kr pc, winner s = Some i /\ T s i = Some (TR kr pc) /\ o = payload_of kr ONone) /\
+  (In w (sublog s) -> In w (rel s)) /\ (~ In w (sublog s) -> ~ In w (rel s)).
+Proof.
+  intros R H. pose proof (inv2_reachable _ _ R) as J. apply W_T in H.
+  destruct (j_done s J _ _ _ _ H) as (SR & E & S1).
+  refine (conj SR (conj E (conj _ (conj S1 _)))).
+  - destruct (result_is_winners ops s R SR) as (i & kr & pc & A & B & C). exists i, kr, pc. rewrite E. auto.
+  - intros NS Q. apply NS. apply (j_sub s J). apply in_or_app. right. apply in_or_app. right. apply in_or_app. right. exact Q.
+Qed.
+
+(* a waiter about to be refused: it is at its CAS and the slot is Ready; its next step reads the final payload *)
+Theorem refused_sees_result ops s w k r e f :
+  reachable ops s -> T s w = Some (TW k (WSub r e) f) -> slot s = SReady ->
+  T (fst (tstep s w)) w = Some (TW k (WDone (payload s)) f) /\ ~ In w (sublog (fst (tstep s w))) /\
+  exists i kr pc, winner s = Some i /\ T s i = Some (TR kr pc) /\ payload s = payload_of kr ONone.
+Proof.
+  intros R H SR. pose proof (inv2_reachable _ _ R) as J.
+  unfold tstep. fold (T s w). rewrite H, SR. cbn [fst]. split; [|split].
+  - rewrite T_set_thr by (eapply T_some_lt; eassumption). rewrite Nat.eqb_refl. reflexivity.
+  - cbn [set_thr sublog]. apply W_T in H. apply (j_pre s J _ _ _ _ H). reflexivity.
+  - apply (result_is_winners ops s R SR).
+Qed.
+
+(* ---------- the access log ---------- *)
+Lemma wf_log_prefix l : wf_log l -> forall l1 e l2, l = l1 ++ e :: l2 -> wf_log l1 /\ ok_after l1 e.
+Proof.
+  induction 1 as [|l e' WF IH OK]; intros l1 e l2 E.
+  - destruct l1; discriminate.
+  - destruct (exists_last (l := e :: l2) ltac:(discriminate)) as (m & x & Em).
+    rewrite Em in E. rewrite app_assoc in E. apply app_inj_tail in E. destruct E as (E1 & E2). subst x.
+    destruct l2 as [|y l2].
+    + destruct m; [|destruct m; discriminate]. rewrite app_nil_r in E1. inversion Em; subst. auto.
+    + destruct m as [|z m]; [discriminate|]. inversion Em; subst z.
+      eapply IH. exact E1.
+Qed.
+
+Lemma wf_log_later l l1 e l2 e2 :
+  wf_log l -> l = l1 ++ e :: l2 -> In e2 l2 -> exists m, In e (l1 ++ e :: m) /\ ok_after (l1 ++ e :: m) e2.
+Proof.
+  intros WF E H. apply in_split in H. destruct H as (m1 & m2 & ->).
+  exists m1. split; [apply in_or_app; right; left; reflexivity|].
+  assert (E' : l = (l1 ++ e :: m1) ++ e2 :: m2) by (rewrite E, <- app_assoc; reflexivity).
+  apply (wf_log_prefix l WF _ _ _ E').
+Qed.
+
+(* next-read-before-resume: after a node's resume() the walker never reads or writes that node again, and it
+   resumes it only once *)
+Theorem no_touch_after_resume ops s l1 w l2 :
+  reachable ops s -> elog s = l1 ++ EResume w :: l2 ->
+  ~ In (ENext w) l2 /\ ~ In (EClear w) l2 /\ ~ In (EResume w) l2.
+Proof.
+  intros R E. pose proof (j_log s (inv2_reachable _ _ R)) as WF.
+  repeat split; intros H; destruct (wf_log_later _ _ _ _ _ WF E H) as (m & A & B); cbn [ok_after] in B; tauto.
+Qed.
+
+(* once the storage of a waiter's awaiter is gone (stack sync_awaiter out of scope, coroutine temporary dead,
+   callback context deleted) nothing touches it; and it is only released after its resume() *)
+Theorem no_touch_after_free ops s l1 w l2 :
+  reachable ops s -> elog s = l1 ++ EFree w :: l2 ->
+  In (EResume w) l1 /\ ~ In (ENext w) l2 /\ ~ In (EClear w) l2 /\ ~ In (EResume w) l2 /\ ~ In (EFree w) l2.
+Proof.
+  intros R E. pose proof (j_log s (inv2_reachable _ _ R)) as WF.
+  split; [apply (wf_log_prefix _ WF _ _ _ E)|].
+  repeat split; intros H; destruct (wf_log_later _ _ _ _ _ WF E H) as (m & A & B); cbn [ok_after] in B; tauto.
+Qed.
+
+(* the walker reads next and clears it before it calls resume(): every ENext/EClear w precedes EResume w *)
+Theorem resumed_iff_logged ops s w :
+  reachable ops s -> (In (EResume w) (elog s) <-> In w (acc s ++ rel s)).
+Proof. intros R. apply (j_eres s (inv2_reachable _ _ R)). Qed.
+
+(* async completion: the coroutine frame is destroyed only after its future became ready *)
+Theorem frame_after_ready ops s b :
+  reachable ops s -> In (EFrame b) (elog s) -> b = true /\ slot s = SReady.
+Proof. intros R H. apply (j_frame s (inv2_reachable _ _ R) b H). Qed.
+
+(* ================= terminal states: nothing is lost ================= *)
+(* every step keeps resolver threads resolver threads of the same kind (and waiters waiters), and never enters RXWait *)
+Definition TRpres (s s' : st) : Prop :=
+  length (thrs s') = length (thrs s) /\
+  (forall j k pc, T s j = Some (TR k pc) -> exists pc', T s' j = Some (TR k pc') /\ (pc' = RXWait -> pc = RXWait)) /\
+  (forall j k pc', T s' j = Some (TR k pc') -> exists pc, T s j = Some (TR k pc)).
+
+Lemma TRpres_same s s' : length (thrs s') = length (thrs s) -> same_TR s s' -> TRpres s s'.
+Proof.
+  intros L S. split; [exact L|]. split.
+  - intros j k pc H. exists pc. split; [apply S; exact H|auto].
+  - intros j k pc H. exists pc. apply S. exact H.
+Qed.
+
+Lemma TRpres_set s X i k pc pc' :
+  length (thrs X) = length (thrs s) -> same_TR s X -> T s i = Some (TR k pc) -> pc' <> RXWait ->
+  TRpres s (set_thr X i (TR k pc')).
+Proof.
+  intros L S H N. pose proof (T_some_lt _ _ _ H) as Li. split; [|split].
+  - cbn [set_thr thrs]. rewrite set_nth_length. exact L.
+  - intros j k0 pc0 Hj. rewrite T_set_thr by lia. destruct (Nat.eqb_spec i j) as [<-|NE].
+    + rewrite H in Hj. inversion Hj; subst. exists pc'. split; [reflexivity|]. intros Q. contradiction.
+    + exists pc0. split; [apply S; exact Hj|auto].
+  - intros j k0 pc0. rewrite T_set_thr by lia. destruct (Nat.eqb_spec i j) as [<-|NE].
+    + intros Q. inversion Q; subst. eauto.
+    + intros Q. apply S in Q. eauto.
+Qed.
+
+Lemma step_TRpres s i : enabled s i = true -> TRpres s (fst (tstep s i)).
+Proof.
+  intros E. destruct (enabled_T s i E) as (t & Ht). unfold tstep. fold (T s i). rewrite Ht.
+  assert (G0 : forall X pc pc' k, thrs X = thrs s -> T s i = Some (TR k pc) -> pc' <> RXWait -> TRpres s (set_thr X i (TR k pc'))).
+  { intros X pc pc' k EX H N. apply (TRpres_set s X i k pc pc'); auto; [rewrite EX; reflexivity|apply same_TR_fields; exact EX]. }
+  destruct t as [k pc|k pc f].
+  - destruct pc as [| |[b|]| | |r].
+    + destruct (owner s); cbn [fst]; (eapply G0; [reflexivity|exact Ht|destruct k; discriminate]).
+    + cbn [fst]. eapply G0; [reflexivity|exact Ht|discriminate].
+    + cbn [fst]. eapply G0; [reflexivity|exact Ht|destruct b; discriminate].
+    + destruct (owner s); cbn [fst]; (eapply G0; [reflexivity|exact Ht|discriminate]).
+    + change (match slot s with SChain l => l | SReady => [] end) with (chain s).
+      cbn [fst]. destruct (chain s).
+      * match goal with |- TRpres s (finish ?x i k) => destruct (finish_shape x i k) as (th' & sb' & wl' & el' & FE & FL & FT); rewrite FE end.
+        apply (TRpres_set s _ i k RResolve); [exact FL| |exact Ht|discriminate].
+        intros j k0 pc0. unfold T at 1. cbn [thrs]. rewrite FT. unfold T. cbn [thrs]. tauto.
+      * eapply G0; [reflexivity|exact Ht|discriminate].
+    + destruct (walk s) as [|w t] eqn:EW; cbn [fst].
+      * destruct (finish_shape s i k) as (th' & sb' & wl' & el' & FE & FL & FT). rewrite FE.
+        apply (TRpres_set s _ i k RWalk); [exact FL| |exact Ht|discriminate].
+        intros j k0 pc0. unfold T at 1. cbn [thrs]. rewrite FT. tauto.
+      * set (s0 := mkSt (owner s) (slot s) (payload s) t (acc s) (thrs s) (winner s) (sublog s) (wlog s) (elog s)).
+        pose proof (release_node_frame s0 w) as R. cbn zeta in R.
+        destruct R as (R1 & R2 & R3 & R4 & R5 & R6 & R7 & R8).
+        assert (S0 : same_TR s s0) by (apply same_TR_fields; reflexivity).
+        destruct t as [|w2 t2].
+        -- destruct (finish_shape (release_node s0 w) i k) as (th' & sb' & wl' & el' & FE & FL & FT). rewrite FE.
+           apply (TRpres_set s _ i k RWalk); [cbn [thrs]; rewrite FL, R8; reflexivity| |exact Ht|discriminate].
+           intros j k0 pc0. unfold T at 1. cbn [thrs]. rewrite FT. split; intros Q.
+           ++ apply R7, S0 in Q. exact Q.
+           ++ apply R7, S0. exact Q.
+        -- apply TRpres_same; [rewrite R8; reflexivity|]. eapply same_TR_trans; eassumption.
+    + unfold enabled in E. fold (T s i) in E. rewrite Ht in E. discriminate.
+  - assert (G : forall X k' pc' f', thrs X = thrs s -> TRpres s (set_thr X i (TW k' pc' f'))).
+    { intros X k' pc' f' EX. apply TRpres_same.
+      - cbn [set_thr thrs]. rewrite set_nth_length, EX. reflexivity.
+      - eapply same_TR_trans; [apply (same_TR_fields s X EX)|].
+        eapply same_TR_set_w. unfold T. rewrite EX. exact Ht. }
+    destruct pc as [| |r e| | |o]; cbn [fst]; try (destruct (slot s)); try (destruct (onat_eqb (head l) e));
+      try (apply G; reflexivity); apply TRpres_same; try reflexivity; apply same_TR_refl.
+Qed.
+
+Record Inv3 (ops : list (list Z)) (s : st) : Prop := {
+  k_len : length (thrs s) = S (length (flat_map decode_thr ops));
+  k_dtor : exists pc, T s (length (flat_map decode_thr ops)) = Some (TR KDtor pc);
+  k_xwait : forall j k, T s j = Some (TR k RXWait) -> j = length (flat_map decode_thr ops);
+}.
+
+Lemma inv3_reachable ops s : reachable ops s -> Inv3 ops s.
+Proof.
+  induction 1 as [|s i R IH E].
+  - constructor; unfold T; cbn [init thrs].
+    + rewrite app_length. cbn [length]. lia.
+    + exists RXWait. rewrite nth_error_app2 by lia. rewrite Nat.sub_diag. reflexivity.
+    + intros j k H. destruct (Nat.lt_ge_cases j (length (flat_map decode_thr ops))) as [L|L].
+      * rewrite nth_error_app1 in H by exact L. apply nth_error_In in H. apply in_flat_map in H.
+        destruct H as (l & _ & H). apply decode_thr_initial in H.
+        destruct H as [(k' & Q & _)|[(k' & Q)|Q]]; inversion Q.
+      * assert (LT : (j < length (flat_map decode_thr ops ++ [TR KDtor RXWait]))%nat) by (apply nth_error_Some; congruence).
+        rewrite app_length in LT. cbn [length] in LT. lia.
+  - destruct IH as [K1 K2 K3]. destruct (step_TRpres s i E) as (PL & PT & PB).
+    constructor.
+    + rewrite PL. exact K1.
+    + destruct K2 as (pc & H). destruct (PT _ _ _ H) as (pc' & H' & _). eauto.
+    + intros j k H. destruct (PB _ _ _ H) as (pc & HT).
+      destruct (PT _ _ _ HT) as (pc' & H' & X). rewrite H in H'. inversion H'; subst. apply (K3 j k). rewrite HT, (X eq_refl). reflexivity.
 Qed.
